@@ -127,6 +127,10 @@ class AddrMap(object):
         if params[0] in self.addr:
             self.addr[params[0]].update(*params)
 
+        elif params[1] == '<error>':
+            # a failed lookup for a name we don't hold: nothing to drop
+            return
+
         else:
             a = Addr(self)
             # add both name and IP address
